@@ -247,6 +247,53 @@ pub fn generate(kind: &str, thorough: bool, seed: u64, corpus: &str, out: &mut O
                 for t in random_docs(&si, &mut rng, 50, 5) { crate::valcases::rules_case(&si, &t, &rules, &tmp, out); }
             }
         }
+        "c14" => {
+            let tmp = tmpdir();
+            let mut group = 0usize;
+            let mut sis = pool();
+            for i in 0..(3 * scale) { sis.push(gen::SchemaInfo::new(&format!("random{}", i), &gen::random_schema(&mut rng))); }
+            sis.push(gen::SchemaInfo::new("merge-order", &format!("{}\ntype Human {{ name: String  nn: Int!  self: Human }}\ntype Query {{ human: Human }}\n", schemas::PRELUDE)));
+            for si in &sis {
+                let mut docs: Vec<String> = corpus_docs(corpus, &si.name);
+                if si.name == "merge-order" {
+                    docs.clear();
+                    for t in ["{ human { t: self { x: name ...A ...F } } } fragment A on Human { ...G1 } fragment F on Human { ...G1 ...G2 } fragment G1 on Human { nn } fragment G2 on Human { x: nn }",
+                              "{ human { g: self { nn } g: self { ...F2 } t: self { x: name } t: self { ...F2 } } } fragment F2 on Human { ...F3 } fragment F3 on Human { x: nn }",
+                              "{ human { x: name ...A } } fragment A on Human { ...B self { ...B } } fragment B on Human { x: nn }",
+                              "{ human { self { x: name } ...A } } fragment A on Human { self { ...B } } fragment B on Human { x: name }"] { docs.push(t.to_string()); }
+                }
+                if si.name != "merge-order" { for k in 0..(36 * scale) { let mut g = gen::DocGen::new(si, rng.fork(), [0, 0, 4, 12][k % 4], 2 + k % 3); docs.push(g.document()); } }
+                // a permuted copy of the schema (definitions, fields, arguments, enum values, union members, interface lists, directive locations)
+                let psd = crate::rewrite::perm_schema(&si.doc, &mut rng);
+                let psi = gen::SchemaInfo::new(&format!("{}-permuted", si.name), &format!("{}", psd));
+                let mut variants: Vec<(usize, &'static str, String)> = vec![];
+                out.schema(si);
+                for t in &docs {
+                    let base = match gen::parse_doc(t) { Some(d) => d, None => continue };
+                    group += 1;
+                    crate::valcases::accept_case(si, t, &tmp, json!({"family": "base", "group": group, "rewrite": "none"}), out);
+                    let mut push = |name: &'static str, d: graphql_tools::static_graphql::query::Document, out: &mut Out| {
+                        // only where the external printer preserves the AST
+                        if crate::rewrite::reparse(&d).is_some() { crate::valcases::accept_case(si, &format!("{}", d), &tmp, json!({"family": name, "group": group, "rewrite": name}), out); }
+                        else { crate::valcases::PRINTER_LOSSY.fetch_add(1, std::sync::atomic::Ordering::Relaxed); }
+                    };
+                    push("print-reparse", base.clone(), out);
+                    push("permute-definitions", crate::rewrite::perm_definitions(&base, &mut rng), out);
+                    push("reverse-definitions", crate::rewrite::reverse_definitions(&base), out);
+                    push("permute-selections", crate::rewrite::perm_selections(&base, &mut rng), out);
+                    push("reverse-selections", crate::rewrite::reverse_selections(&base), out);
+                    push("permute-arguments", crate::rewrite::perm_arguments(&base, &mut rng), out);
+                    push("reverse-arguments", crate::rewrite::reverse_arguments(&base), out);
+                    push("permute-variables", crate::rewrite::perm_variables(&base, &mut rng), out);
+                    push("rename", crate::rewrite::rename_all(&base), out);
+                    push("wrap-untyped-inline", crate::rewrite::wrap_untyped(&base), out);
+                    for name in crate::rewrite::inlinable(&base) { push("inline-spread", crate::rewrite::inline_fragment(&base, &name), out); }
+                    variants.push((group, "permute-schema", t.clone()));
+                }
+                out.schema(&psi);
+                for (g, name, t) in variants.iter() { crate::valcases::accept_case(&psi, t, &tmp, json!({"family": name, "group": g, "rewrite": name}), out); }
+            }
+        }
         "c01" => {
             // documents the type-directed generator makes without deviating (most are spec-valid; the check
             // judges only those the spec accepts), over the curated and random schemas
